@@ -202,6 +202,7 @@ func cmdS12(args []string) {
 	}
 	var insts []inst
 	nameRE := regexp.MustCompile(`^func (S\d+)\(`)
+	helperRE := regexp.MustCompile(`^(S\d+)_h\w*$`)
 	for i, f := range p.Files {
 		path := p.Paths[i]
 		src, _ := os.ReadFile(path)
@@ -378,12 +379,38 @@ func cmdS12(args []string) {
 				for _, e := range edits {
 					body = body[:e.from-a] + e.text + body[e.to-a:]
 				}
-				m := nameRE.FindStringSubmatch(body)
-				if m == nil {
-					continue
+				var m []string
+				var nm string
+				if hm := helperRE.FindStringSubmatch(fd.Name.Name); hm != nil {
+					// the claim sits in a (generic) helper of scenario hm[1]: the instrumented unit is
+					// the helper plus a copy of the scenario function calling the instrumented helper
+					var sfd *ast.FuncDecl
+					for _, d := range f.Decls {
+						if x, ok := d.(*ast.FuncDecl); ok && x.Name.Name == hm[1] {
+							sfd = x
+						}
+					}
+					if sfd == nil {
+						continue
+					}
+					nm = fmt.Sprintf("%s__ck%d", hm[1], k)
+					hn := fmt.Sprintf("%s__ck%d", fd.Name.Name, k)
+					body = strings.Replace(body, "func "+fd.Name.Name, "func "+hn, 1)
+					sbody := text(sfd)
+					sbody = strings.Replace(sbody, "func "+hm[1]+"(", "func "+nm+"(", 1)
+					sbody = strings.ReplaceAll(sbody, fd.Name.Name+"(", hn+"(")
+					sbody = strings.ReplaceAll(sbody, fd.Name.Name+"[", hn+"[")
+					body = body + "\n\n" + sbody
+					m = []string{"", hm[1]}
+					cnt.Add("claims_in_generic_helpers", 1)
+				} else {
+					m = nameRE.FindStringSubmatch(body)
+					if m == nil {
+						continue
+					}
+					nm = fmt.Sprintf("%s__ck%d", m[1], k)
+					body = strings.Replace(body, "func "+m[1]+"(", "func "+nm+"(", 1)
 				}
-				nm := fmt.Sprintf("%s__ck%d", m[1], k)
-				body = strings.Replace(body, "func "+m[1]+"(", "func "+nm+"(", 1)
 				insts = append(insts, inst{k, nm, m[1], c.Info.Name, w.Text, body})
 				cnt.Add("claims_instrumented", 1)
 				cnt.Add("claims:"+c.Info.Name+":"+claimKind, 1)
@@ -461,8 +488,8 @@ func cmdS12(args []string) {
 					continue
 				}
 				for _, d := range f.Decls {
-					if fd, ok := d.(*ast.FuncDecl); ok && fd.Pos() <= te.Pos && te.Pos <= fd.End() && !dropped[fd.Name.Name] {
-						dropped[fd.Name.Name] = true
+					if fd, ok := d.(*ast.FuncDecl); ok && fd.Pos() <= te.Pos && te.Pos <= fd.End() && !dropped[unitOf(fd.Name.Name)] {
+						dropped[unitOf(fd.Name.Name)] = true
 						progress = true
 						cnt.Add("inconclusive_instrumentation_does_not_compile", 1)
 						cnt.Put("instrumentation_errors", te.Msg)
@@ -477,4 +504,14 @@ func cmdS12(args []string) {
 	}
 	out.Emit(cnt.Stat())
 	out.Emit(map[string]interface{}{"kind": "done"})
+}
+
+var helperCopyRE = regexp.MustCompile(`^(S\d+)_h\w*?__ck(\d+)$`)
+
+// unitOf maps the instrumented copy of a helper to the instrumented copy of its scenario.
+func unitOf(name string) string {
+	if m := helperCopyRE.FindStringSubmatch(name); m != nil {
+		return m[1] + "__ck" + m[2]
+	}
+	return name
 }
